@@ -348,6 +348,8 @@ Section S3.
 
   Lemma code_open : str_eqb (lit "NoSuchKey") gen_code_open_notfound = true.
   Proof. reflexivity. Qed.
+  Lemma code_readtag : str_eqb (lit "NoSuchKey") gen_code_readtag_notfound = true.
+  Proof. reflexivity. Qed.
 
   (* open_seekable on a key that holds v: one HEAD answers v's size, the reader gets that size and the key's own
      S3 key, and every ranged GET is answered from v -- the reader over v itself.  (gen_open_size_path /
@@ -376,7 +378,7 @@ Section S3.
     /\ wf_keys (fst (spec_step st o)).
   Proof.
     intros st o Hst Ho. pose proof (wf_keys_store st Hst) as Hs.
-    destruct o as [k v|k|k|d|k|k|k|k prog|k]; cbn [map_op s3_step spec_step fst snd wf_op] in *;
+    destruct o as [k v|k|k|d|k|k|k|k prog|k|k v|k]; cbn [map_op s3_step spec_step fst snd wf_op] in *;
       try (destruct Ho as [Hne Hk]; rewrite (get_key_join pfx k Hk); fold (s3k k)).
     - (* Write *)
       unfold s3_put_object. rewrite (s3_upsert st k v Hs Hk). split; [reflexivity|].
@@ -412,6 +414,16 @@ Section S3.
     - (* Stream *)
       unfold s3_get_object. rewrite (s3_lookup st k Hs Hk). split; [|exact Hst].
       destruct (lookup key_eqb k st); [reflexivity|]. rewrite code_open. reflexivity.
+    - (* WriteCas: the tag just read matches, so the conditional PUT lands like a plain one *)
+      cbv zeta. unfold s3_put_if, s3_get_object.
+      replace (tag_matches _ _) with true
+        by (destruct (lookup str_eqb (s3k k) (F ++ map km st)); cbn [tag_matches]; [rewrite str_eqb_refl|]; reflexivity).
+      rewrite (s3_upsert st k v Hs Hk). split; [reflexivity|].
+      unfold wf_keys. rewrite Forall_forall. intros x Hx. apply upsert_keys in Hx. destruct Hx as [->|Hx]; [split; assumption|].
+      unfold wf_keys in Hst. rewrite Forall_forall in Hst. apply Hst. exact Hx.
+    - (* ReadTag *)
+      unfold s3_get_object. rewrite (s3_lookup st k Hs Hk). split; [|exact Hst].
+      destruct (lookup key_eqb k st); [reflexivity|]. rewrite code_readtag. reflexivity.
   Qed.
 
   Lemma s3_sim_run : forall ops st, wf_keys st -> Forall wf_op ops ->
@@ -434,7 +446,7 @@ Section S3.
     Forall (ranged_ok (F ++ map km st)) (s3_trace page pfx (F ++ map km st) (map_op join o)).
   Proof.
     intros page st o Hst Ho. pose proof (wf_keys_store st Hst) as Hs.
-    destruct o as [k v|k|k|d|k|k|k|k prog|k]; cbn [map_op s3_trace];
+    destruct o as [k v|k|k|d|k|k|k|k prog|k|k v|k]; cbn [map_op s3_trace];
       try (apply Forall_repeat; exact I); try (repeat constructor; exact I).
     - (* Exists *)
       constructor; [exact I|]. destruct (has str_eqb _ _); [constructor|]. destruct (ends_with _ _); repeat constructor.
@@ -448,6 +460,8 @@ Section S3.
         * unfold gen_open_key. rewrite (get_key_join pfx k Hk). fold (s3k k). rewrite (s3_lookup st k Hs Hk). exact El.
         * rewrite Forall_forall in Hr. exact (Hr (a, b) Hin).
       + rewrite (s3_open_none st k prog Hs Hk El). constructor.
+    - (* WriteCas *)
+      apply Forall_app. split; [apply Forall_repeat; exact I|repeat constructor].
   Qed.
 
   Lemma s3_ranges_run : forall page ops st, wf_keys st -> Forall wf_op ops ->
@@ -543,11 +557,11 @@ Section Local.
                   /\ linv KS {| lfiles := fst (spec_step (lfiles s) o); ldirs := dirs' |}.
   Proof.
     intros s o Hi Ho Hin. pose proof Hi as [Hf [Hd Hp]].
-    destruct o as [k v|k|k|d|k|k|k|k prog|k]; cbn [local_step spec_step fst snd wf_op op_key] in *;
+    destruct o as [k v|k|k|d|k|k|k|k prog|k|k v|k]; cbn [local_step spec_step fst snd wf_op op_key] in *;
       try (destruct Ho as [[Hne Hk] Hprog]);
       try (destruct Ho as [Hne Hk]); try (pose proof (Hin k (or_introl eq_refl)) as HkKS).
     - (* Write *)
-      rewrite (not_below_file s k Hi HkKS).
+      unfold local_write. rewrite (not_below_file s k Hi HkKS).
       set (dirs' := add_dirs (proper_prefixes k) (ldirs s)).
       assert (dirs_ok KS dirs') as Hd'.
       { intros p Hp'. apply add_dirs_In in Hp'. destruct Hp' as [Hp'|Hp']; [|apply Hd; exact Hp'].
@@ -587,6 +601,21 @@ Section Local.
       exists (ldirs s). split; [|destruct s; exact Hi]. destruct s as [fs ds]. cbn [lfiles ldirs] in *.
       destruct (lookup key_eqb k fs); [reflexivity|]. rewrite (missing_notfound _ k Hi HkKS Hne). reflexivity.
     - (* Stream *)
+      exists (ldirs s). split; [|destruct s; exact Hi]. destruct s as [fs ds]. cbn [lfiles ldirs] in *.
+      destruct (lookup key_eqb k fs); [reflexivity|]. rewrite (missing_notfound _ k Hi HkKS Hne). reflexivity.
+    - (* WriteCas: a plain write on a backend without CAS *)
+      unfold local_write. rewrite (not_below_file s k Hi HkKS).
+      set (dirs' := add_dirs (proper_prefixes k) (ldirs s)).
+      assert (dirs_ok KS dirs') as Hd'.
+      { intros p Hp'. apply add_dirs_In in Hp'. destruct Hp' as [Hp'|Hp']; [|apply Hd; exact Hp'].
+        exists k. split; [exact HkKS|apply pp_under; exact Hp']. }
+      assert (is_dir {| lfiles := lfiles s; ldirs := dirs' |} k = false) as E.
+      { unfold is_dir. cbn [ldirs]. destruct k; [contradiction|]. apply no_dir; assumption. }
+      rewrite E. exists dirs'. split; [reflexivity|]. split; [|split]; cbn [lfiles ldirs].
+      + intros x Hx. apply upsert_keys in Hx. destruct Hx as [->|Hx]; [exact HkKS|apply Hf; exact Hx].
+      + exact Hd'.
+      + intros x p Hx Hpp. apply add_dirs_In. apply upsert_keys in Hx. destruct Hx as [->|Hx]; [left; exact Hpp|right; eapply Hp; eassumption].
+    - (* ReadTag *)
       exists (ldirs s). split; [|destruct s; exact Hi]. destruct s as [fs ds]. cbn [lfiles ldirs] in *.
       destruct (lookup key_eqb k fs); [reflexivity|]. rewrite (missing_notfound _ k Hi HkKS Hne). reflexivity.
   Qed.
@@ -688,7 +717,7 @@ Qed.
 Definition abs_join (n : nat) (k : key) : str := repeat slash n ++ join k.
 
 Definition op_segs (o : op key) : key :=
-  match o with Write k _ | Read k | Exists k | ListDir k | Delete k | Size k | Mtime k | Open k _ | Stream k => k end.
+  match o with Write k _ | Read k | Exists k | ListDir k | Delete k | Size k | Mtime k | Open k _ | Stream k | WriteCas k _ | ReadTag k => k end.
 
 Lemma lstrip_abs : forall n k, Forall wf_seg k -> lstrip_slash (abs_join n k) = join k.
 Proof.
